@@ -646,6 +646,11 @@ def run(ctx):
             if isinstance(e_, ast.Subscript) and isinstance(e_.slice, ast.Constant) and e_.slice.value == 0 and \
                     isinstance(e_.value, ast.Attribute) and e_.value.attr == 'nodelist':
                 return unparse(e_.value)
+            # `<nl>[0]` where <nl> is a local bound once to `<g>.nodelist`: the path facts speak of the local
+            if isinstance(e_, ast.Subscript) and isinstance(e_.slice, ast.Constant) and e_.slice.value == 0 and \
+                    isinstance(e_.value, ast.Name) and len(ldefs_.get(e_.value.id, ())) == 1 and \
+                    isinstance(ldefs_[e_.value.id][0], ast.Attribute) and ldefs_[e_.value.id][0].attr == 'nodelist':
+                return e_.value.id
             return None
         for r_ in iter_own(f_):
             if not (isinstance(r_, ast.Return) and isinstance(r_.value, ast.Attribute) and r_.value.attr == 'nodelist'):
